@@ -56,6 +56,11 @@ def ret(xs: array[int, 3]) -> int:
     return xs[2] * 2
 
 @guppy
+def adv(c: array[int, 3]) -> int:
+    c[0] = c[0] + 1
+    return (c[0] + 1) % 2
+
+@guppy
 def three(xs: array[int, 3], ys: array[int, 3], zs: array[int, 3]) -> None:
     xs[0] = 41
     ys[0] = 42
@@ -63,11 +68,15 @@ def three(xs: array[int, 3], ys: array[int, 3], zs: array[int, 3]) -> None:
 """
 OPS = ["bump(a, 0, 1)", "bump(b, 1, 2)", "swap01(a)", "two(a, b)", "two(b, a)", "two_rev(a, b)", "mid(0, a, 1, b)", "mid(2, b, 0, a)", "touch(s)", "bump(s.xs, 0, 3)",
        "row(m, 1, 2, 5)", "bump(m[0], 1, 4)", "bump(t[0], 0, 3)", "two(array(9, 9, 9), a)", "two(a, array(9, 9, 9))", "result('x', ret(a))", "two(s.xs, m[1])",
-       "three(array(0, 0, 0), a, b)", "three(a, array(0, 0, 0), b)", "three(b, s.xs, array(0, 0, 0))", "mid(1, t[0], 2, m[0])"]
-DUMP = ["a[0]", "a[1]", "a[2]", "b[0]", "b[1]", "b[2]", "s.xs[0]", "s.xs[1]", "s.xs[2]", "m[0][1]", "m[1][1]", "m[1][2]", "t[0][0]", "t[0][1]"]
+       "three(array(0, 0, 0), a, b)", "three(a, array(0, 0, 0), b)", "three(b, s.xs, array(0, 0, 0))", "mid(1, t[0], 2, m[0])",
+       # nested borrows whose index expressions have their own side effect (a borrowed counter): evaluated once, inside out
+       "bump(u[adv(c)][1], 0, 5)", "bump(u[adv(c)][adv(c)], 1, 6)", "two(u[adv(c)][0], u[adv(c)][1])"]
+DUMP = ["a[0]", "a[1]", "a[2]", "b[0]", "b[1]", "b[2]", "s.xs[0]", "s.xs[1]", "s.xs[2]", "m[0][1]", "m[1][1]", "m[1][2]", "t[0][0]", "t[0][1]",
+        "u[0][0][0]", "u[0][0][1]", "u[0][1][0]", "u[0][1][1]", "u[1][0][0]", "u[1][0][1]", "u[1][1][0]", "u[1][1][1]", "u[0][0][2]", "u[1][1][2]", "c[0]"]
 
 def scenario_src(k, ops):
-    body = ["    a = array(1, 2, 3)", "    b = array(4, 5, 6)", "    s = S(array(7, 8, 9), 1)", "    m = array(array(1, 1, 1), array(2, 2, 2))", "    t = (array(0, 0, 0), 5)"]
+    body = ["    a = array(1, 2, 3)", "    b = array(4, 5, 6)", "    s = S(array(7, 8, 9), 1)", "    m = array(array(1, 1, 1), array(2, 2, 2))", "    t = (array(0, 0, 0), 5)",
+            "    u = array(array(array(1, 2, 3), array(4, 5, 6)), array(array(7, 8, 9), array(10, 11, 12)))", "    c = array(0, 0, 0)"]
     body += ["    " + o for o in ops]
     body += [f"    result('{j}', {d})" for j, d in enumerate(DUMP)]
     return f"@guppy\ndef sc{k}() -> None:\n" + "\n".join(body) + "\n"
@@ -138,6 +147,18 @@ def run_group(group):
             rejected.append({"ops": group[0], "error": type(e.error).__name__}); return
         h = len(group) // 2
         run_group(group[:h]); run_group(group[h:]); return
+    except Exception as e:
+        # the emulated program panicked / crashed although every scenario is a terminating Python
+        # program without out-of-range accesses: isolate the scenario, report it as a violation
+        if type(e).__name__ not in ("EmulatorError", "SeleneRuntimeError", "SelenePanicError") and "anic" not in str(e):
+            raise
+        if len(group) == 1:
+            if bad is None:
+                bad = {"ops": group[0], "detail": f"after {'; '.join(group[0])}: the emulated program raised {type(e).__name__}: {str(e)[:160]} (Python completes normally)"}
+            n += 1
+            return
+        h = len(group) // 2
+        run_group(group[:h]); run_group(group[h:]); return
     for ops, a, b in zip(group, em, py):
         n += 1
         if a != b and bad is None:
@@ -150,6 +171,10 @@ print(json.dumps({"violates": bad is not None, "evaluations": n, "rejected": rej
 '''
 
 REPLAY_ONE = r'''
-em, py = run_batch([INPUT["ops"]])
-print(json.dumps({"violates": em != py, "emulator": em, "python": py, "ops": INPUT["ops"]}))
+try:
+    em, py = run_batch([INPUT["ops"]])
+    print(json.dumps({"violates": em != py, "emulator": em, "python": py, "ops": INPUT["ops"]}))
+except Exception as e:
+    if "anic" not in str(e) and type(e).__name__ != "EmulatorError": raise
+    print(json.dumps({"violates": True, "emulator": f"raised {type(e).__name__}: {str(e)[:200]}", "python": "completes normally", "ops": INPUT["ops"]}))
 '''
